@@ -738,8 +738,10 @@ def dorfler_marks(op, boxes, strict=True):
     return out, len(tied), m
 
 
-def model_grading(case, mm, sigma, K, cap):
-    """The grading sweep on the model.  Returns (sweeps, splits)."""
+def model_grading(case, mm, sigma, K, cap, strict=True):
+    """The grading sweep on the model.  Returns (sweeps, splits).  With
+    strict=False a leaf within rounding of a window boundary is classified
+    by its float sizes (a best guess, used only to size budgets)."""
     n0 = mm.n_bisect
     sweeps = 0
     while True:
@@ -749,7 +751,7 @@ def model_grading(case, mm, sigma, K, cap):
             ht, hx = t1 - t0, x1 - x0
             r = hx**sigma
             for a, b in ((ht / K, r), (r, K * ht)):
-                if a != b and abs(a - b) <= 1e-12 * abs(b):
+                if strict and a != b and abs(a - b) <= 1e-12 * abs(b):
                     raise Ambiguous('grading-window-boundary')
             if ht / K >= r:
                 mt.append(lf)
@@ -954,6 +956,7 @@ def apply_op(case, op, cov, mode, log):
         cov.max('budget_used_fraction_dorfler', used / limit)
     elif kind == 'grading':
         est = None
+        window_judged = True
         if mode.get('grading_oracle') or mode.get('model', True):
             mm = model.copy()
             try:
@@ -962,8 +965,19 @@ def apply_op(case, op, cov, mode, log):
                 from .core import SkipRun
                 raise SkipRun('grading-too-large')
             except Ambiguous as a:
-                from .core import SkipRun
-                raise SkipRun(a.why)
+                # a leaf sits within rounding of a window boundary: which
+                # way it is classified is not decidable here, so the window
+                # is not judged -- but the call must still terminate without
+                # error and produce a valid refinement
+                cov.inc('probe.grading_window_not_judged')
+                mm = model.copy()
+                try:
+                    sweeps, splits = model_grading(case, mm, op['sigma'], 4,
+                                                   cap, strict=False)
+                except OverflowError:
+                    from .core import SkipRun
+                    raise SkipRun('grading-too-large')
+                window_judged = False
             est = (sweeps, splits, len(mm.leaves))
             cov.max('grading_sweeps', sweeps)
         if est is not None:
@@ -977,6 +991,7 @@ def apply_op(case, op, cov, mode, log):
         cov.max('budget_used_fraction_grading', used / limit)
         if est is not None:
             model.adopt(mm.leaves)
+        grading_judged = est is not None and window_judged
     else:
         raise ValueError(kind)
 
@@ -1009,7 +1024,8 @@ def apply_op(case, op, cov, mode, log):
         model.adopt(got)
     else:
         boxes = case.check_valid_refinement(site, before)
-        if kind == 'grading' and mode.get('grading_oracle'):
+        if kind == 'grading' and mode.get('grading_oracle') and (
+                grading_judged):
             sigma = op['sigma']
             for b in boxes:
                 t0, t1, x0, x1 = case.phys(b)
